@@ -12,7 +12,7 @@
    Serialiser.  [encode] is the uncached path of __bytes__; [None] = the code raises.
    Parser.  [parse_next fuel depth d] parses one element at the start of [d] (= data[offset:]);
    the result carries the element, the number of octets the parser advances by
-   (header + declared size, even when the data is shorter: Python slices clamp), the
+   (header + declared size as an integer, even when the data is shorter: Python slices clamp), the
    cached slice [_bytes] (= firstn consumed d) and a flag [canon] that is true iff every
    header met was the minimal form for its size, nothing was truncated, every boolean
    octet was 0/1 and every sequence ended exactly at its declared end.  [PErr] = the code
@@ -137,8 +137,13 @@ Fixpoint list_bytes_ok (l : list elem) : bool :=
   match l with [] => true | x :: r => elem_bytes_ok x && list_bytes_ok r end.
 
 (* ---------------------------------------------------------------- parser *)
+(* Python slices with a possibly huge bound: data[:z] / data[z:], computed without ever
+   building a unary number larger than the data (a 32-bit size field can announce 4 GiB) *)
+Definition takeZ (z : Z) (d : list Z) : list Z := firstn (Z.to_nat (Z.min z (lenZ d))) d.
+Definition dropZ (z : Z) (d : list Z) : list Z := skipn (Z.to_nat (Z.min z (lenZ d))) d.
+
 Inductive presult :=
-  | POk (e : elem) (consumed : nat) (raw : list Z) (canon : bool)
+  | POk (e : elem) (consumed : Z) (raw : list Z) (canon : bool)
   | PErr
   | PFuel.
 
@@ -175,11 +180,10 @@ Fixpoint parse_next (fuel : nat) (depth : nat) (d : list Z) : presult :=
           | None => PErr
           | Some (hs, vs) =>
               let body := skipn hs d1 in        (* data[value_start:] *)
-              let n := Z.to_nat vs in
-              let consumed := S (hs + n) in
-              let raw := firstn consumed d in
-              let value := firstn n body in     (* data[value_start:value_end], clamped *)
-              let whole := (n <=? length body)%nat in
+              let consumed := 1 + Z.of_nat hs + Z.max 0 vs in
+              let raw := takeZ consumed d in
+              let value := takeZ vs body in     (* data[value_start:value_end], clamped *)
+              let whole := vs <=? lenZ body in
               if ty =? 0 then POk ENil consumed raw ((idx =? 0))
               else if ty =? 1 then
                 if int_size_ok vs && whole
@@ -214,8 +218,8 @@ Fixpoint parse_next (fuel : nat) (depth : nat) (d : list Z) : presult :=
                                   | S k' =>
                                       match parse_next k dep d with
                                       | POk e c _ cn =>
-                                          match parse_list k' (skipn c d) (budget - Z.of_nat c) with
-                                          | LOk l used cn' => LOk (e :: l) (Z.of_nat c + used) (cn && cn')
+                                          match parse_list k' (dropZ c d) (budget - c) with
+                                          | LOk l used cn' => LOk (e :: l) (c + used) (cn && cn')
                                           | LErr => LErr
                                           | LFuel => LFuel
                                           end
@@ -244,8 +248,8 @@ Fixpoint parse_list (pn : nat) (dep : nat) (fuel : nat) (d : list Z) (budget : Z
        | S k' =>
            match parse_next pn dep d with
            | POk e c _ cn =>
-               match parse_list pn dep k' (skipn c d) (budget - Z.of_nat c) with
-               | LOk l used cn' => LOk (e :: l) (Z.of_nat c + used) (cn && cn')
+               match parse_list pn dep k' (dropZ c d) (budget - c) with
+               | LOk l used cn' => LOk (e :: l) (c + used) (cn && cn')
                | LErr => LErr
                | LFuel => LFuel
                end
@@ -284,7 +288,7 @@ Fixpoint elem_sig (e : elem) : list Z :=
 (* 0 = raises, 1 = parsed, 2 = out of fuel (never, by C18_sdp_fuel_sufficient) *)
 Definition presult_sig (r : presult) : Z * list Z * Z * (Z * Z) * bool :=
   match r with
-  | POk e c raw cn => (1, elem_sig e, Z.of_nat c, dg raw, cn)
+  | POk e c raw cn => (1, elem_sig e, c, dg raw, cn)
   | PErr => (0, [], 0, (0, 0), false)
   | PFuel => (2, [], 0, (0, 0), false)
   end.
